@@ -35,14 +35,14 @@ def main():
     chk.finish(
         level='proof',
         rule='token-kind sequences (all, up to the stated length), all strings over an 18-character lexer alphabet up to the stated length, '
-             'grammar-directed expressions with minimal parentheses and random blanks, one/two-edit mutants; non-trivial = distinct accepted string of length > 1',
+             'grammar-directed expressions with minimal parentheses and random blanks, one/two-edit mutants, strings with hostile characters (non-ASCII digits/spaces/letters, controls); non-trivial = distinct accepted string of length > 1',
         trusted=['Lean 4.33 kernel', 'axioms: propext, Classical.choice, Quot.sound only',
                  'py2lean translator (evaluator), grammar2lean dump (declarations incl. the lexer regexes that Model/PluralLex interprets), plurallr2lean dump (rply LALR tables of the live parser; states/productions renumbered canonically)',
                  'hand-written lexer model and LR driver loop (rply LexerStream.next / LRParser.parse / _reduce_production + lib/intexpr.py action functions): tied to the real parser by the '
                  'plural-parse and plural-lr streams (outcome, tree, sequence of reductions); rply\'s table CONSTRUCTION is not modelled - its output is dumped and proved to accept exactly the declared grammar with the C trees',
                  'Spec.mathEval / Spec.D / Spec.Amb / Spec.Tokens / Spec.PluralY are my reading of ISO C and plural.y'],
         explanation='Proved for all inputs: eval_iff_C, eval_fails_iff, eval_error_kinds, eval_value_range (generated Evaluator = lazy Z semantics under the in-range side '
-                    'condition, any width >= 1); grammar_pin, lr_tables_pin (declarations handed to rply / table columns = plural.y, by decide on the regenerated dumps); lex_complete_sound, '
+                    'condition, any width >= 1); grammar_pin, lr_tables_pin (dumped regexes readable and = the rules the lexer proofs are about, no flags, operator tables, table columns; by decide on the regenerated dumps); lex_complete_sound, '
                     'tokens_unique, lex_rejects_iff (lexer model = longest-lexeme tokenisation of plural.y yylex, unique, only blank and tab skipped); parse_sound + parse_complete = '
                     'parse_iff_derives (RD model returns e iff the stratified C grammar derives e, with the fuel the model really uses), derives_functional (one AST per token list); '
                     'accept_iff_plural_y (accepted token lists = language of plural.y\'s ambiguous grammar); parse_string_iff / accept_string_iff / reject_string_iff (end to end on strings, '
